@@ -629,6 +629,26 @@ def _():
     return G.emit_strings('p_clamps', rows, 'clamps / eps (pinned shape)')
 
 
+@item('p_dist')
+def _():
+    """distributed wiring (pinned shape): is_distributed defaults, all_reduce / sample_fn selection, distributed sampling, seed sync, LFQ distributed mean"""
+    rows = ['vq.is_distributed:' + ast.unparse(return_expr(VQ, 'is_distributed'))]
+    f = find_func(VQ, 'VectorQuantize.__init__')
+    rows += ['vq.sync_default:' + ast.unparse(n).replace('\n', ' ') for n in ast.walk(f) if isinstance(n, ast.If) and 'sync_codebook' in ast.unparse(n.test)]
+    rows += ['vq.use_ddp:' + ast.unparse(k.value) for n in ast.walk(f) if isinstance(n, ast.Call) and G.call_name(n) == 'dict' for k in n.keywords if k.arg == 'use_ddp']
+    for cls in ('EuclideanCodebook', 'CosineSimCodebook'):
+        for tgt in ('self.sample_fn', 'self.replace_sample_fn', 'self.kmeans_all_reduce_fn', 'self.all_reduce_fn'):
+            rows.append(f'{cls}.{tgt}=' + ast.unparse(assigned_expr(VQ, f'{cls}.__init__', tgt)))
+    rows += ['sample_vectors_distributed:' + ast.unparse(n).replace('\n', ' ') for n in find_func(VQ, 'sample_vectors_distributed').body]
+    rows += ['all_gather_variably_sized:' + ast.unparse(n).replace('\n', ' ') for n in find_func(VQ, 'all_gather_variably_sized').body]
+    rows += ['sample_multinomial:' + ast.unparse(n).replace('\n', ' ') for n in find_func(VQ, 'sample_multinomial').body]
+    for fname, tag in ((RVQ, 'rvq'), (RFSQ, 'rfsq'), (RLFQ, 'rlfq'), (RSVQ, 'rsvq')):
+        rows += [f'{tag}.seed:' + ast.unparse(n).replace('\n', ' ') for n in find_func(fname, 'get_maybe_sync_seed').body]
+    rows += ['lfq.mean:' + ast.unparse(n).replace('\n', ' ') for n in find_func(LFQF, 'maybe_distributed_mean').body]
+    rows += ['lfq.avg:' + ast.unparse(n) for n in ast.walk(find_func(LFQF, 'LFQ.forward')) if isinstance(n, ast.Assign) and ast.unparse(n.targets[0]) == 'avg_prob']
+    return G.emit_strings('p_dist', rows, 'distributed wiring (pinned shape)')
+
+
 # =============================================================================== inventories (G4)
 for fname, cls, tag in ((VQ, 'EuclideanCodebook', 'euclid'), (VQ, 'CosineSimCodebook', 'cosine'), (VQ, 'VectorQuantize', 'vq'),
                         (FSQF, 'FSQ', 'fsq'), (LFQF, 'LFQ', 'lfq'), (SIMVQ, 'SimVQ', 'simvq'), (RPQ, 'RandomProjectionQuantizer', 'rpq'),
